@@ -75,6 +75,8 @@ def res? : Sexp → Option Res
 
 def ev? : Sexp → Option Ev
   | .list [.atom "body", b, a] => do some (.body (← b.nat?) (← a.nat?))
+  | .list [.atom "bodyEnd", b, .atom "none", d] => do some (.bodyEnd (← b.nat?) none (← outc? d))
+  | .list [.atom "bodyEnd", b, r, d] => do some (.bodyEnd (← b.nat?) (some (← err? r)) (← outc? d))
   | .list [.atom "item", i, o, bb] => do
     match (← outc? o) with
     | some o => some (.item (← i.nat?) o (← bb.bool?))
@@ -150,8 +152,10 @@ The flush body cancels the batch it is flushing (`self.cancel(...)`), or an item
 item's batch (while the body runs: the same; while `_computed` completes the leftover items: a no-op).  The model has
 no such statements (its proofs rest on the batch's outcome not changing while its body runs), so NO theorem speaks
 about these cases.  They are judged by a direct expectation: the observations of the implementation must be accepted
-by the observer `specClause` - the statement of C11, which does not refer to the model - and every re-entrant
-`cancel()` must have returned normally and, when it met a pending batch, must have decided that batch's outcome. -/
+by the observer `specClause` - the statement of C11, which does not refer to the model - in its mode `rx := true`
+(the outcome a batch has when its flush body is left stands, because a `cancel()` from inside decided it; the outcome
+of a DebugBatch, whose body cannot be hooked, is not judged by `fateClause`), and every re-entrant `cancel()` must have
+returned normally and, when it met a pending batch, must have decided that batch's outcome. -/
 
 structure XCancel where
   b : Nat
@@ -174,7 +178,7 @@ def handleX (id : Nat) (hdr : List Sexp) (body : List Sexp) : String :=
     match kind? k, kp.bool?, (body.filter isObs).mapM (fun o => obs? ((kind? k).getD .user) ((kp.bool?).getD false) o),
           (body.filter (fun l => !isObs l)).mapM xcancel? with
     | some k, some keep, some impl, some xs =>
-      let spec := specClause k impl keep
+      let spec := specClause k impl keep true
       let final := match impl.getLast? with | some ob => ob.post | none => init k keep
       let direct : Option String := xs.findSome? fun x =>
         if x.raised then some "cancel-total@reenter"
